@@ -269,8 +269,8 @@ CHECKS = {
         "evolution factor, prefactor within 1e-11) with the model fed the observed exciton-basis data (eigh an oracle); real "
         "liouville_pathway/LabSetup prefactors; real MockTwoDResponseCalculator monitors (R+NR, rotations, scaling, relabelling, "
         "additivity). Line shapes (cvoigt/erfcx, lorentzian) are oracles. Cancellation is proved for N = 2, 3 only; the selection "
-        "threshold sqrt(D2_max)*dtol is inhomogeneous in the dipole scale (the scaling theorem states 'same selection').",
-   design="7/C12", technique="Coq proof (ring; symbolic evaluation of the transcribed pathway generators) + in-Coq differential correspondence in exact rational arithmetic, numerical SO(3) quadrature monitors"),
+        "threshold sqrt(D2_max)*dtol is inhomogeneous in the dipole scale (the scaling theorem states 'same selection'). Static tie: generate_R1g .. generate_R2f, liouville_pathways_3T's dispatch, liouville_pathway.__init__ / add_transition / add_transfer / set_evolution_factor / build / orientational_averaging, LabSetup's M4 / F4e / F4eM4, and calculate_pathway / calculate_one are regenerated from the source and proved equal to Model/C12.v and C12x.v for all inputs; glue statements (thresholds, evolution superoperator in the eigenbasis) are matched verbatim; the translator harness/translate_c12.py joins the trusted base; exception handlers are shown dead only for systems whose sole ground state is state 0.",
+   design="7/C12", technique="Coq proof over an arbitrary commutative ring (orientational algebra, pathway lists, N=2,3 cancellation, the pathway object as a state machine proved equal to the closed form) + static tie: on every run a fail-closed translation of the current source into Gallina with machine-checked equality to the model (recursive statement translator for the six generators generate_R1g..R2f and the dispatch of liouville_pathways_3T; statement templates with holes for the liouville_pathway methods, LabSetup M4/F4e/F4eM4 and the mock calculator; composite lemma g_code_is_gen6) + in-Coq differential correspondence in exact rational arithmetic (pathway lists, real pathway objects under random call programs, the calculator's selection), numerical SO(3) quadrature monitors"),
  "C13": dict(
    text="Proved in Coq with no size bound: list-rotation laws of fftshift/ifftshift (ifftshift o fftshift = id for every length; "
         "fftshift o fftshift = id for even lengths, = rotation by one and != id for every odd length >= 3); over any field of "
@@ -325,8 +325,8 @@ CHECKS = {
         "get_DensityMatrix end to end (2-4 molecules, optional mode and two-exciton band; thermal/weak/strong/impulsive; contexts none, H, "
         "X, XH, HX) with the model fed the run's S, U, energies and exp table (1e-10; in-context cases above n = 5 are monitored only - a "
         "cost limit of exact rational arithmetic). Units contexts are not in the property's quantifier (a thermal request inside "
-        "energy_units('1/cm') divides 1/cm energies by kT in internal units: noted, C05-type, not judged here).",
-   design="7/C14", technique="Coq proof (lra/nra/field over Q with an oracle-parameterised model; abstract *-ring for the matrix part) + in-Coq correspondence in exact rational arithmetic with recorded oracle tables"),
+        "energy_units('1/cm') divides 1/cm energies by kT in internal units: noted, C05-type, not judged here). Static tie: trusted are harness/translate_c14.py and the reading of numpy.sum / argmin / amin / diag; exp, eigh and inv remain monitored oracles; the reorganisation-energy loop and the temperature defaults are matched verbatim, not modelled.",
+   design="7/C14", technique="Coq proof (lra/nra/field over Q with an oracle-parameterised model; abstract *-ring for the matrix part) + static tie: _thermal_population, the selection logic of get_DensityMatrix, _impulsive_population and get_thermal_ReducedDensityMatrix are re-translated from the current source on every run (statement templates with holes instantiated into the skeletons of Proofs/C14gen.v) and proved equal to thermal_population / opensystem_population / strong_energies / strong_data / impulsive / basis_product + in-Coq correspondence in exact rational arithmetic with recorded oracle tables"),
  "C06": dict(
    text="Proved in Coq (closed) over any commutative *-ring, every Na and number of bath components, with the float comparisons of the "
         "code as abstract boolean tests: ssRedfieldRateMatrix has column sums equal to the initial diagonal (zero from the caller) for "
@@ -344,8 +344,8 @@ CHECKS = {
         "dispatching wrapper) on integer KI/cc incl. negatives so that the clamp path runs, several rtol, non-zero initial RR: matrix and "
         "werror flags compared with = inside Coq; Foerster _reference_implementation with an integer _fintegral table compared with =; "
         "RedfieldRateMatrix end to end (N = 2-4, 77-400 K) with the run's eigenvalues, S, KK, spline values and Boltzmann factors as "
-        "data (1e-11). Time-dependent Redfield rates and vibronic aggregates are not exercised.",
-   design="7/C06", technique="Coq proof (ring algebra over an abstract *-ring with boolean comparison oracles; field over Q) + in-Coq correspondence (exact on integers, 1e-11 end to end), analytic-reference monitors"),
+        "data (1e-11). Time-dependent Redfield rates and vibronic aggregates are not exercised. Static tie: for the translated kernels the theorems hold for what the source says now, for all inputs; trusted are the template reader harness/translate_c06.py and the untranslated @implementation dispatch; splines, FFT and quadrature remain oracles, so the golden-rule and Foerster detailed-balance clauses stay validated, not proved.",
+   design="7/C06", technique="Coq proof (ring algebra over an abstract *-ring with boolean comparison oracles; field over Q) + static tie: ssRedfieldRateMatrix, RedfieldRateMatrix._set_rates, the Foerster reference implementation with the exponent of _fintegral, the three analytic spectral densities and get_FTCorrelationFunction are re-translated from the current source on every run (statement templates with holes instantiated into the skeleton combinators of Proofs/C06gen.v - imperative loops with in-place mutation proved equal to the closed-form model) and proved equal to Model/C06.v + in-Coq correspondence (exact on integers, 1e-11 end to end; units-context cases), analytic-reference monitors"),
 }
 NOT_YET = {}
 def main():
